@@ -1367,6 +1367,31 @@ func runScenario(seed int64, n int, out *bufio.Writer, kind string, suffix strin
 		h.connUp(t)
 		nev = r.Intn(2)
 	}
+	if kind == "atomic" && n%16 == 9 {
+		// scripted: one target, six changes in a row, each meeting a burst of one gRPC status code at the device (the codes
+		// rotate with the history number, so that three such histories cover all of them); the controllers run to rest
+		// after each change: a transient code must leave the change pending and let it through once the burst is over, a
+		// refusal must fail that change only
+		t := h.targets[0]
+		if len(h.connsOf(t)) == 0 {
+			h.connUp(t)
+		}
+		h.settle(20, 0)
+		cds := []codes.Code{codes.Unavailable, codes.Canceled, codes.DeadlineExceeded, codes.InvalidArgument, codes.Internal, codes.NotFound,
+			codes.Unknown, codes.ResourceExhausted, codes.PermissionDenied, codes.Unimplemented, codes.AlreadyExists, codes.FailedPrecondition,
+			codes.Unauthenticated, codes.Aborted, codes.OutOfRange, codes.DataLoss}
+		for j := 0; j < 6; j++ {
+			c := cds[(6*(n/16)+j+int(seed))%len(cds)]
+			burst := 1 + r.Intn(2)
+			for i := 0; i < burst; i++ {
+				h.policy[t] = append(h.policy[t], c)
+			}
+			h.emit("(devpolicy)", fmt.Sprintf("%s:%s:%d", tnum(t), c.String(), burst))
+			h.nbSet([]op{{target: t, path: env.Pick(r, paths), val: fmt.Sprintf("v%d", r.Intn(1000))}}, r.Intn(2) == 0, r.Intn(4) == 0)
+			h.settle(30, 0)
+		}
+		nev = r.Intn(2)
+	}
 	for ev := 0; ev < nev; ev++ {
 		switch k := r.Intn(20); {
 		case k < 9:
